@@ -157,6 +157,9 @@ func (s *MultiEventSyncer) syncRange(ctx context.Context, start, end uint64) (in
 	if err != nil {
 		return 0, errors.Wrap(err, "failed to get execution block header")
 	}
+	if err := s.checkBuildsOnSyncedBlock(ctx, start); err != nil {
+		return 0, err
+	}
 
 	allEvents := make(map[string][]Event)
 	numEvents := 0
@@ -190,6 +193,36 @@ func (s *MultiEventSyncer) syncRange(ctx context.Context, start, end uint64) (in
 	}
 
 	return numEvents, nil
+}
+
+// checkBuildsOnSyncedBlock makes sure that the first block of a range still builds on the block
+// recorded as synced. One Sync call may store several ranges; if the chain is reorganised between
+// two of them, the later range would be stored on top of events of the abandoned branch and the
+// sync status would carry a canonical hash again, so that the reorg is never noticed. Returning
+// an error leaves the status at the abandoned block, which the next Sync call detects and rolls
+// back.
+func (s *MultiEventSyncer) checkBuildsOnSyncedBlock(ctx context.Context, start uint64) error {
+	status, err := s.getSyncStatus(ctx)
+	if err != nil {
+		if err == pgx.ErrNoRows {
+			return nil
+		}
+		return errors.Wrap(err, "failed to get sync status")
+	}
+	if len(status.BlockHash) == 0 || status.BlockNumber < 0 || uint64(status.BlockNumber)+1 != start {
+		return nil
+	}
+	first, err := s.ExecutionClient.HeaderByNumber(ctx, new(big.Int).SetUint64(start))
+	if err != nil {
+		return errors.Wrap(err, "failed to get execution block header")
+	}
+	if !bytes.Equal(first.ParentHash.Bytes(), status.BlockHash) {
+		return errors.Errorf(
+			"block %d does not build on the synced block %d anymore, the chain was reorganized during the sync",
+			start, status.BlockNumber,
+		)
+	}
+	return nil
 }
 
 func (s *MultiEventSyncer) getSyncStatus(ctx context.Context) (*SyncStatus, error) {
